@@ -1,7 +1,8 @@
+import RallyModel.Retry
 /-
 Model of race control's decision logic (esrally/racecontrol.py): BenchmarkActor.receiveMsg_* and
 BenchmarkCoordinator.on_task_finished / on_benchmark_complete, plus `race()`'s classification of the FIRST reply it
-receives from the benchmark actor (`actor_system.ask`).  Import-free.
+receives from the benchmark actor (`actor_system.ask`).  Imports only the model of `runner.Retry` (for requests behind the retry wrapper).
 -/
 namespace RaceCtl
 
@@ -104,5 +105,120 @@ def pollTaskExecutor (f : Fut) : List PollAct :=
   | .doneOk => [.clearFuture, .sendReady]
   | .none => [.rearm]
   | .running => [.rearm]
+
+/-! ### track preparation: `TrackPreparationActor`'s handlers as decisions, and the preparation run -/
+
+/-- `TrackPreparationActor.status` (`none` = the value `RallyActor.__init__` leaves) -/
+inductive PrepStatus
+  | none | initializing | running | complete
+deriving Repr, DecidableEq
+
+/-- what `processors.get()` / `on_prepare_track` of the next track processor does when `resume()` asks for it -/
+inductive NextProc
+  | noneLeft | seeds | raises
+deriving Repr, DecidableEq
+
+inductive PrepEv
+  | benchmarkFailure                                   -- from a task executor (its own failure or a relayed one)
+  | poison                                             -- PoisonMessage
+  | readyForWork (tasksLeft : Bool)
+  | workerIdle (lastChild : Bool) (next : NextProc)    -- `lastChild`: every other child has already answered
+deriving Repr, DecidableEq
+
+/-- messages the handler sends, in order (a StartTaskLoop to every child counts once) -/
+inductive PrepSend
+  | forwardToDriver      -- the received BenchmarkFailure itself, to the driver
+  | failureToDriver      -- a new BenchmarkFailure to the driver
+  | failureToSender      -- the `no_retry` guard: the handler raised, BenchmarkFailure to the sender of the message
+  | doTask | doNothing   -- DoTask(task) / DoTask(None) to the task executor
+  | startTaskLoop | trackPrepared
+deriving Repr, DecidableEq
+
+/-- one message handled by the track preparator in status `st`: what it sends and the status it is left in -/
+def prepHandle (st : PrepStatus) : PrepEv → List PrepSend × PrepStatus
+  | .benchmarkFailure => ([.forwardToDriver], st)
+  | .poison => ([.failureToDriver], st)
+  | .readyForWork true => ([.doTask], st)
+  | .readyForWork false => ([.doNothing], st)
+  | .workerIdle last next =>
+    -- transition_when_all_children_responded(expected = PROCESSOR_RUNNING, new = PROCESSOR_COMPLETE, resume)
+    if st ≠ .running then ([.failureToSender], st)
+    else if !last then ([], st)
+    else match next with
+      | .noneLeft => ([.trackPrepared], .complete)
+      | .seeds => ([.startTaskLoop], .running)
+      | .raises => ([.failureToSender], .complete)
+
+/-- a track processor: does asking it for its tasks raise, and which of its tasks fail -/
+structure Proc where
+  seedRaises : Bool
+  taskFails : List Bool
+deriving Repr, DecidableEq
+
+inductive PrepOutcome
+  | prepared                -- TrackPrepared sent to the driver
+  | failed (hops : Nat)     -- a BenchmarkFailure arrives at the driver after `hops` messages
+deriving Repr, DecidableEq
+
+/-- the preparation run over the queue of processors (`first`: the processor is seeded inside `receiveMsg_PrepareTrack`, whose sender
+    is the driver; later ones inside `receiveMsg_WorkerIdle`, whose sender is a task executor that relays the failure back):
+    guard → driver (1 hop) | task executor → preparator → driver (2 hops) | guard → task executor → preparator → driver (3 hops) -/
+def prepRun : Bool → List Proc → PrepOutcome
+  | _, [] => .prepared
+  | first, p :: ps =>
+    if p.seedRaises then .failed (if first then 1 else 3)
+    else if p.taskFails.any id then .failed 2
+    else prepRun false ps
+
+/-! ### one request: `execute_single` as a decision on what the registered runner did -/
+
+/-- what the call of the runner ended with, as far as `execute_single` distinguishes -/
+inductive RunOut
+  | tuple2 | dictSuccess | dictNoKey | dictFail | otherValue     -- return values (dictNoKey: a dict without "success")
+  | connErrorExact      -- `type(e) is elasticsearch.ConnectionError`
+  | connErrorSub        -- a subclass of ConnectionError (TlsError, …)
+  | connTimeout | transportOther | apiError
+  | keyError | otherExc
+deriving Repr, DecidableEq
+
+inductive ExecRes
+  | sample (success : Bool)   -- returns (ops, unit, meta) with meta["success"]
+  | assertionError            -- RallyAssertionError("Request returned an error …")
+  | setupError                -- SystemSetupError (KeyError: missing parameters)
+  | propagates                -- the runner's exception, unchanged
+deriving Repr, DecidableEq
+
+def RunOut.isRequestFailure : RunOut → Bool
+  | .dictFail | .connErrorExact | .connErrorSub | .connTimeout | .transportOther | .apiError => true
+  | _ => false
+
+def execSingle (abort : Bool) : RunOut → ExecRes
+  | .tuple2 | .dictSuccess | .dictNoKey | .otherValue => .sample true
+  | .dictFail => if abort then .assertionError else .sample false
+  | .connErrorExact => .assertionError                       -- fatal_error
+  | .connErrorSub | .connTimeout | .transportOther | .apiError => if abort then .assertionError else .sample false
+  | .keyError => .setupError
+  | .otherExc => .propagates
+
+/-- the outcome classes of the Retry model as `execute_single` sees them (the simulated runner raises the exact ConnectionError) -/
+def ofRetryKind : Retry.Kind → RunOut
+  | .dictOk => .dictSuccess
+  | .dictFail => .dictFail
+  | .nonDict => .otherValue
+  | .sockTimeout => .otherExc
+  | .connError => .connErrorExact
+  | .connTimeout => .connTimeout
+  | .api408 => .apiError
+  | .apiOther => .apiError
+  | .transportOther => .transportOther
+  | .otherExc => .otherExc
+
+/-- a request whose runner is registered behind `Retry`: `none` = the script of answers is used up, a further attempt follows -/
+def retriedRequest (abort : Bool) (p : Retry.Params) (outs : List Retry.Outcome) : Option ExecRes :=
+  match (Retry.retry p outs).res with
+  | .returned o => some (execSingle abort (ofRetryKind o.kind))
+  | .raised o => some (execSingle abort (ofRetryKind o.kind))
+  | .fellThrough => some (execSingle abort .otherValue)      -- implicit `return None`
+  | .pending => none
 
 end RaceCtl
